@@ -694,7 +694,15 @@ func (f *Frame) specIndex(n SIndex, env *specEnv) Val {
 			hn, vsort, psort := f.mapHeap(t)
 			vals := e.getHeap(env.st, hn+"_v", vsort)
 			pres := e.getHeap(env.st, hn+"_p", psort)
-			return Val{T: ite(fmt.Sprintf("(select (select %s %s) %s)", pres, x.T, i.T), fmt.Sprintf("(select (select %s %s) %s)", vals, x.T, i.T), e.tt().zero(t.Elem())), Typ: t.Elem()}
+			rd := ite(fmt.Sprintf("(select (select %s %s) %s)", pres, x.T, i.T), fmt.Sprintf("(select (select %s %s) %s)", vals, x.T, i.T), e.tt().zero(t.Elem()))
+			// typing invariant of the value read (as at a map lookup in code); only for ground terms: a read under a
+			// binder (quantifier variable, parameter of an opaque definition) cannot be constrained from outside
+			if !env.st.symbolic && !strings.Contains(rd, "!q") && !strings.Contains(rd, "pv!") && !strings.Contains(rd, "hv!") && len(env.bound) == 0 {
+				if c := e.wfVal(rd, t.Elem(), env.st.alloc); c != "" && c != "true" {
+					e.assert(c)
+				}
+			}
+			return Val{T: rd, Typ: t.Elem()}
 		}
 		return Val{T: fmt.Sprintf("(select %s %s)", x.T, i.T), Typ: t.Elem()}
 	case *types.Pointer:
